@@ -238,16 +238,33 @@ func runInuseScan(c Case) interface{} {
 				ld.DescribeUsers(append([]fs.InUseProc(nil), m[layer]...), tbl)
 				tbl.Flush()
 			})
-			idxs := []int{}
-			for _, mm := range pidInParens.FindAllStringSubmatch(text, -1) {
-				pid, _ := strconv.Atoi(mm[1])
-				if idx, ok := pidIndex[pid]; ok {
-					idxs = append(idxs, idx)
-				}
+			type ent struct {
+				idx  int
+				kind string
 			}
-			sort.Ints(idxs)
-			for _, idx := range idxs {
-				listed = append(listed, []interface{}{hx(layer), float64(idx)})
+			ents := []ent{}
+			for _, line := range strings.Split(text, "\n") {
+				mm := pidInParens.FindStringSubmatch(line)
+				if mm == nil {
+					continue
+				}
+				pid, _ := strconv.Atoi(mm[1])
+				idx, ok := pidIndex[pid]
+				if !ok {
+					continue
+				}
+				kind := "other"
+				switch {
+				case strings.Contains(line, "running in chroot"):
+					kind = "chroot"
+				case strings.Contains(line, "running in layer directory"):
+					kind = "cwd"
+				}
+				ents = append(ents, ent{idx, kind})
+			}
+			sort.Slice(ents, func(a, b int) bool { return ents[a].idx < ents[b].idx })
+			for _, e := range ents {
+				listed = append(listed, []interface{}{hx(layer), float64(e.idx), e.kind})
 			}
 		}
 		return obj("cls", "ok", "uses", out, "listed", listed)
